@@ -156,8 +156,11 @@ func (s setDesc) json() vt.Ev {
 	return vt.Ev{"stype": s.stype, "hdrId": s.hdrID, "recs": recs}
 }
 
-func (s setDesc) build() entities.Set {
-	set := entities.NewSet(false)
+func (s setDesc) build() entities.Set { return s.buildInto(entities.NewSet(false)) }
+
+// buildInto fills the given set object (a fresh one, or one the application recycles with ResetSet)
+func (s setDesc) buildInto(set entities.Set) entities.Set {
+	set.ResetSet()
 	switch s.stype {
 	case "template":
 		set.PrepareSet(entities.Template, uint16(s.hdrID))
@@ -167,8 +170,12 @@ func (s setDesc) build() entities.Set {
 		set.ResetSet() // type Undefined
 		return set
 	}
+	var scratch []entities.InfoElementWithValue // ONE slice refilled for every record, as an application would: AddRecord copies
 	for _, r := range s.recs {
-		elems := make([]entities.InfoElementWithValue, len(r.ies))
+		if cap(scratch) < len(r.ies) {
+			scratch = make([]entities.InfoElementWithValue, len(r.ies))
+		}
+		elems := scratch[:len(r.ies)]
 		for i, ie := range r.ies {
 			var e entities.InfoElementWithValue
 			var err error
@@ -192,12 +199,13 @@ func (s setDesc) build() entities.Set {
 }
 
 type session struct {
-	w     *vt.Writer
-	p     *peer
-	ep    *exporter.ExportingProcess
-	evals int
-	dist  map[uint64]bool
-	json  bool
+	recycle entities.Set // when set: every set handed to SendSet is this one object, recycled with ResetSet
+	w       *vt.Writer
+	p       *peer
+	ep      *exporter.ExportingProcess
+	evals   int
+	dist    map[uint64]bool
+	json    bool
 }
 
 func newSession(w *vt.Writer, proto string, dom uint32, seq0 uint32, dist map[uint64]bool) *session {
@@ -239,7 +247,11 @@ func (s *session) sendPre(d setDesc, pre entities.Set) {
 			}
 		}()
 		if set = pre; set == nil {
-			set = d.build()
+			if s.recycle != nil {
+				set = d.buildInto(s.recycle)
+			} else {
+				set = d.build()
+			}
 		}
 		t0 := time.Now().Unix()
 		n, err := s.ep.SendSet(set)
@@ -565,6 +577,9 @@ func main() {
 				dom = ^uint32(0)
 			}
 			s := newSession(w, proto, dom, seq0, dist)
+			if i%2 == 1 {
+				s.recycle = entities.NewSet(false)
+			}
 			ies := []*entities.InfoElement{u8, str}
 			ies2 := []*entities.InfoElement{ip4, u8}
 			s.send(tmplSet(256, ies))
@@ -617,7 +632,7 @@ func main() {
 			addr := []*entities.InfoElement{ip4, ip6, mac, oct3, str}
 			s.send(tmplSet(257, addr))
 			for j := 0; j < nmsg; j++ {
-				switch x := r.Intn(18); {
+				switch x := r.Intn(19); {
 				case x == 0: // unknown template id
 					d := dataSet(r, 300+r.Intn(3), big, r.Intn(4), 10, 60000)
 					s.send(d)
@@ -635,6 +650,10 @@ func main() {
 					s.send(padTo(256, big, 65519+r.Intn(22)))
 				case x == 4: // undefined set type
 					s.send(setDesc{stype: "undef"})
+				case x == 12 && j%3 == 0: // more than a thousand one-byte records in one set
+					one := []*entities.InfoElement{u8}
+					s.send(tmplSet(690, one))
+					s.send(dataSet(r, 690, one, 1020+r.Intn(1200), 1, 60000))
 				case x == 10: // an IPv4 address given in its 4-byte form for an ipv6Address element: sent as ::ffff:a.b.c.d
 					v := randVals(r, addr, 20)
 					a4 := []byte{byte(1 + r.Intn(223)), byte(r.Intn(256)), byte(r.Intn(256)), byte(1 + r.Intn(254))}
